@@ -191,6 +191,8 @@ def layouts(printed, pairs=False):
         yield (['uniform', alt], A.Layout(default=alt))
         yield (['lead', alt], A.Layout(lead=alt))
         yield (['trail', alt], A.Layout(trail=alt))
+    yield (['trail', ' // last line, no line break'], A.Layout(trail=' // last line, no line break'))
+    yield (['trail', '\n// c'], A.Layout(trail='\n// c'))
     for i in range(1, n):
         for alt in GAP_ALTERNATIVES:
             yield (['gap', i, alt], A.Layout(gaps={i: alt}))
